@@ -298,6 +298,26 @@ pub const OK_M2: M3 = [[0.2104542553, 0.7936177850, -0.0040720468], [1.977998495
 pub const OK_LIN_TO_LMS: M3 = [[0.4122214708, 0.5363325363, 0.0514459929], [0.2119034982, 0.6806995451, 0.1073969566], [0.0883024619, 0.2817188376, 0.6299787005]];
 pub const OK_LMS_TO_LIN: M3 = [[4.0767416621, -3.3077115913, 0.2309699292], [-1.2684380046, 2.6097574011, -0.3413193965], [-0.0041960863, -0.7034186147, 1.7076147010]];
 
+/// M1 as recalculated for CSS Color 4 / color.js (w3c/csswg-drafts#6642, endorsed by Ottosson): the direct
+/// linear-sRGB -> LMS matrix times the XYZ -> linear-sRGB matrix for the D65 chromaticity (0.3127, 0.3290)
+pub fn ok_m1_recalculated() -> M3 {
+    let s = standard("Srgb");
+    let w = [0.3127 / 0.3290, 1.0, (1.0 - 0.3127 - 0.3290) / 0.3290];
+    let col = |p: [f64; 2]| [p[0] / p[1], 1.0, (1.0 - p[0] - p[1]) / p[1]];
+    let (r, g, b) = (col(s.primaries[0]), col(s.primaries[1]), col(s.primaries[2]));
+    let m = [[r[0], g[0], b[0]], [r[1], g[1], b[1]], [r[2], g[2], b[2]]];
+    let sc = mul(&inv(&m), w);
+    let m = [[sc[0] * r[0], sc[1] * g[0], sc[2] * b[0]], [sc[0] * r[1], sc[1] * g[1], sc[2] * b[1]], [sc[0] * r[2], sc[1] * g[2], sc[2] * b[2]]];
+    matmul(&OK_LIN_TO_LMS, &inv(&m))
+}
+pub fn xyz_to_oklab_with(m1: &M3, xyz: V3) -> V3 {
+    let lms = mul(m1, xyz);
+    mul(&OK_M2, [lms[0].cbrt(), lms[1].cbrt(), lms[2].cbrt()])
+}
+pub fn oklab_to_xyz_with(m1: &M3, lab: V3) -> V3 {
+    let l = mul(&inv(&OK_M2), lab);
+    mul(&inv(m1), [l[0].powi(3), l[1].powi(3), l[2].powi(3)])
+}
 pub fn xyz_to_oklab(xyz: V3) -> V3 {
     let lms = mul(&OK_M1, xyz);
     mul(&OK_M2, [lms[0].cbrt(), lms[1].cbrt(), lms[2].cbrt()])
